@@ -15,17 +15,17 @@ checks = {
    design="5/C02"),
  "C03": dict(
    text=conv+"the top cursor rows carry orphaned hashes over arbitrary (non-consecutive) cursor numbers; up to k+1 steps on the frozen canonical chain; z3 decides the invariant at every commit, canonical hashes of all remaining positions, untouched canonical prefix and rows below the fork.",
-   note="Chain frozen while converging; forks below the retained cursor history are outside (as in the property). Reorgs between RPC calls of one fetch are covered only through C07's segment linkage validation.",
+   note="Chain frozen while converging; forks below the retained cursor history are outside (as in the property). Reorgs between the RPC calls of one fetch and re-requests through the shared caching client are decided by ZZ_C03_Switch (a two-version honest node: every successful Get returns one version of the block; retries converge once the cached segment expired) and by C07's segment linkage; a reorg between partitions of one load() is outside.",
    technique="go/ssa symbolic execution, bounded multi-step from an inductive pre-state -> SMT (z3); native replay",
    design="5/C03"),
  "C04": dict(
    text=conv+"three foreign pairs (shared source, shared integration name and table, shared table) with arbitrary cursor rows are present during reorg unwinding and inserts; z3 decides they are unchanged (frame condition from the SQL text of every statement, so a dropped src_name/ig_name conjunct is caught). Row stamping is decided on the real row builder.",
-   note="All-interleavings follows from the per-statement frame condition (statements touching only their own pair commute); Postgres row isolation is trusted. Shared-cache clause: C08.",
+   note="All-interleavings follows from the per-statement frame condition (statements touching only their own pair commute); Postgres row isolation is trusted. Shared-cache clause: C08. The periodic pruning of recorded positions (PruneTask) is decided against a model that reads the statement's outer tuple, partition columns, order direction and rn bound from its text (ZZ_C04_Prune).",
    technique="go/ssa symbolic execution -> SMT (z3) frame condition; native replay",
    design="5/C04"),
  "C05": dict(
    text=conv+"1-2 referenced integrations with 0..2 cursor rows (0 = not started) plus a same-named integration on another source; z3 decides the dependent writes nothing until every reference has progress and never advances beyond the smallest newest position.",
-   note="The CTE of latestDependency is hand-modelled from its SQL. ValidateFilterRefs/Dependencies completeness and lookup-on-inserting-transaction are not covered.",
+   note="The shape of the CTE of latestDependency is hand-modelled, its ORDER BY directions are read from the SQL text. Relative speeds: the referenced integration moves between the passes of one step (ZZ_C05_Moving). Dependencies completeness is decided at the config level (ZZ_C05_Refs); that reference lookups run on the inserting transaction is not covered.",
    technique="go/ssa symbolic execution -> SMT (z3); native replay",
    design="5/C05"),
  "C06": dict(
@@ -44,18 +44,18 @@ checks = {
    technique="go/ssa symbolic execution over enumerated request orders and bounded schedules -> SMT (z3); native replay with the same cut (sequential), engine-concrete replay (scheduled)",
    design="5/C08"),
  "C09": dict(
-   text="Bounded symbolic model checking of the real ABI type parser (Input.ABIType, parseArray, hasStatic, sizeof) with symbolic array-length digits, and of the real decoder (Result.Scan, scan, GetRow) against a reference ABI encoder and row rule over 18 type trees with all values symbolic; each decoder instance is used twice.",
+   text="Bounded symbolic model checking of the real ABI type parser (Input.ABIType, parseArray, hasStatic, sizeof) with symbolic array-length digits, and of the real decoder (Result.Scan, scan, GetRow) against a reference ABI encoder and row rule over 26 type trees with all values symbolic; each decoder instance is used four times (other lengths, then empty byte strings, then the first lengths again).",
    note="Type trees and lengths are case-split (catalogue in harness/dig/common.go); values are solver-quantified. Reference encoder/row rule are mine (harness/dig/c09.go), compiled natively for replay. Overlapping/out-of-order tails and T[0] are outside.",
    technique="go/ssa symbolic execution -> SMT (z3), differential against a reference encoder; native replay",
    design="5/C09"),
  "C10": dict(
-   text="Bounded symbolic model checking of Result.Scan/scan/bint.Decode on arbitrary log data: for each of 18 type trees and each data length up to the bound, all data bytes (and the bytes of stale capacity) are symbolic; z3 decides no-panic, values-inside-input, row-count bound and a 2-safety check that the outcome does not depend on bytes beyond len(data). Loop unwinding len/32+3 is checked, not assumed.",
+   text="Bounded symbolic model checking of Result.Scan/scan/bint.Decode on arbitrary log data: for each of 26 type trees and each data length up to the bound, all data bytes (and the bytes of stale capacity) are symbolic; z3 decides no-panic, values-inside-input, row-count bound and a 2-safety check that the outcome does not depend on bytes beyond len(data). Loop unwinding len/32+3 is checked, not assumed.",
    note="Lengths/capacities case-split (quick <= 96 bytes, thorough <= 192), contents solver-quantified, so boundary words such as 2^63, 2^64-32, len-31 are inside the space. Longer inputs are outside the claim.",
    technique="go/ssa symbolic execution -> SMT (z3) with unwinding checks; native replay",
    design="5/C10"),
  "C11": dict(
    text="Bounded symbolic model checking of the real row builder (dig.New, setCols, processLog, logWithCtx.get, dbtype, Event.Selected) for all 64 indexed/selected layouts of a 3-input event: topics, data and block/tx/log fields are symbolic; every emitted cell is compared with the reference value (indexed inputs by their ordinal among ALL indexed inputs, data inputs by ABI position, typed per ABI type) and the ig_name/src_name stamp is checked.",
-   note="Layouts and leaf types case-split; values solver-quantified. Decimal rendering and pgx/Postgres COPY are outside; JSON->client mapping is C07/C14.",
+   note="Layouts and leaf types case-split; values solver-quantified; array inputs of six static leaf types; Insert over several items incl. logs of other events in between. The unsigned decimal conversion (uint256.Dec) is uninterpreted, the repo's signed rendering (negInt.Value) is decided for every 256-bit value; pgx/Postgres COPY are outside; JSON->client mapping is C07/C14.",
    technique="go/ssa symbolic execution -> SMT (z3); native replay",
    design="5/C11"),
  "C12": dict(
@@ -64,7 +64,7 @@ checks = {
    technique="go/ssa symbolic execution -> SMT (z3); native replay",
    design="5/C12"),
  "C13": dict(
-   text="Bounded symbolic model checking of the decode gate in processLog (topic count and first topic vs stored signature hash, all topic bytes symbolic, topic counts 0..5) and of Event.Signature/Input.Signature against a reference renderer with a symbolic event name over 7 nested tuple/array shapes.",
+   text="Bounded symbolic model checking of the decode gate in processLog (topic count and first topic vs stored signature hash, all topic bytes symbolic, topic counts 0..5) and of Event.Signature/Input.Signature against a reference renderer with a symbolic event name over 7 nested tuple/array shapes; two events of one name with different inputs keep their own hashes.",
    note="Keccak-256 is trusted (computed natively by the engine on concrete input; one known-answer vector as smoke test). Layouts/shapes case-split.",
    technique="go/ssa symbolic execution -> SMT (z3); native replay",
    design="5/C13"),
@@ -97,13 +97,13 @@ m = {
    "source_commits": [],
    "add_only": True,
  },
- "engines": [{"name": "gosym", "path": "/verif/gosym", "serves_properties": sorted(checks), "kind_free_text": "go/ssa -> SMT symbolic executor (own code) with z3 4.8.12 back end; path exploration by re-execution; if-conversion of pure regions; native replay via go test -overlay"}],
+ "engines": [{"name": "gosym", "path": "/verif/gosym", "serves_properties": sorted(checks), "kind_free_text": "go/ssa -> SMT symbolic executor (own code) with z3 5.1.0 (z3-new) as back end (z3 4.8.12 / cvc5 selectable); path exploration by re-execution; if-conversion of pure regions; native replay via go test -overlay"}],
  "checks": [],
  "not_applicable": [],
  "notes": "C08's concurrent half is explored under a bounded scheduler for callers of one range only; C18 is a predictive query over sequentialised paths; C20's schedule half is explored under a bounded scheduler (said in each check's level_note and evidence assumptions). C16's space is mostly configuration shape enumerated by the engine's case splits.",
 }
 checks["C15"] = dict(
-   text="Non-interference by symbolic execution of the real validation (config.ValidateFix / CheckUserInput / ValidateFilterRefs / wstrings.Safe) followed by every real SQL text builder (config.DDL, wpg.Table.DDL/Migrate, dig.Integration.Delete, dig.Filter.Accept reference lookup incl. nested components, dig.Integration.notify, shovel.NewTask application_name): one symbolic byte is appended to each of 20 configuration string positions on the file path and on the dashboard path; whenever the configuration is accepted and a recorded SQL text is a function of the byte, z3 proves the byte is an identifier character. Chain-derived bytes must not influence any SQL text.",
+   text="Non-interference by symbolic execution of the real validation (config.ValidateFix / CheckUserInput / ValidateFilterRefs / wstrings.Safe) followed by every real SQL text builder (config.DDL, wpg.Table.DDL/Migrate, dig.Integration.Delete, dig.Filter.Accept reference lookup incl. nested components, dig.Integration.notify, shovel.NewTask application_name): one symbolic byte is appended to each of 22 configuration string positions on the file path and on the dashboard path; whenever the configuration is accepted and a recorded SQL text is a function of the byte, z3 proves the byte is an identifier character. Chain-derived bytes must not influence any SQL text.",
    note="ASCII assumption for symbolic configuration bytes (Safe accepts non-ASCII letters/digits: outside the claim). One appended byte per run; skeleton configuration of 2 integrations. pgx-quoted COPY identifiers count as parameters.",
    technique="go/ssa symbolic execution -> SMT (z3), term-dependency (non-interference) check at the SQL sinks; native replay",
    design="5/C15")
